@@ -20,6 +20,7 @@ tier: B
 bound: 1 component(s) from {1,2,9,10,12}: all ordered pairs in the last component (concrete enumeration)
 unwind: 20
 backend: sat
+native: self
 flags: --max-field-sensitivity-array-size 200
 objbits: 14
 timeout: 600
@@ -33,6 +34,7 @@ tier: B
 bound: 2 component(s) from {1,2,9,10,12}: all ordered pairs in the last component, and in the first component with the last one reversed (concrete enumeration)
 unwind: 20
 backend: sat
+native: self
 flags: --max-field-sensitivity-array-size 200
 objbits: 14
 timeout: 600
@@ -46,6 +48,7 @@ tier: B
 bound: 3 component(s) from {1,2,9,10,12}: all ordered pairs in the last component, and in the first component with the last one reversed (concrete enumeration)
 unwind: 20
 backend: sat
+native: self
 flags: --max-field-sensitivity-array-size 200
 objbits: 14
 timeout: 600
@@ -59,6 +62,7 @@ tier: B
 bound: prefix of 1 component(s), all 20 ordered pairs of different pre-release words, without and with a digit behind them (concrete enumeration)
 unwind: 20
 backend: sat
+native: self
 flags: --max-field-sensitivity-array-size 200
 objbits: 14
 timeout: 600
@@ -72,6 +76,7 @@ tier: B
 bound: prefix of 2 component(s), all 20 ordered pairs of different pre-release words, without and with a digit behind them (concrete enumeration)
 unwind: 20
 backend: sat
+native: self
 flags: --max-field-sensitivity-array-size 200
 objbits: 14
 timeout: 600
@@ -85,6 +90,7 @@ tier: B
 bound: prefixes 1 / 2.10 / 9.2.12, word in {snap,pre,alpha,beta,rc,a,pl}, without and with a digit (concrete enumeration)
 unwind: 20
 backend: sat
+native: self
 flags: --max-field-sensitivity-array-size 200
 objbits: 14
 timeout: 600
@@ -98,6 +104,7 @@ tier: B
 bound: prefix 2.10 and the same word from {pre,rc,a,pl} on both sides [thorough tier: prefixes 2 / 2.10, all seven words] followed by digits from {1,2,9}: the number behind the suffix is ordered numerically (concrete enumeration; added by the lead after seed C17-s2)
 unwind: 20
 backend: sat
+native: self
 flags: --max-field-sensitivity-array-size 200
 objbits: 14
 timeout: 600
@@ -111,6 +118,23 @@ tier: B
 bound: 1..2 components extended by 1..2 more, values from {1,2,9,10,12} (concrete enumeration)
 unwind: 20
 backend: sat
+native: self
+flags: --max-field-sensitivity-array-size 200
+objbits: 14
+timeout: 600
+*/
+/* components beyond 16 and 32 bits: "numerically" must not depend on the width of an intermediate type
+ * (finding C17-numeric-wrap, seed C17-s3) */
+/*@unit
+name: rule_numeric_big
+define: U_NUMBIG
+src: strings.c
+funcs: spiftool_version_compare
+tier: B
+bound: 1..2 components, the last one all ordered pairs from {9, 32768, 65537, 4294967296} (concrete enumeration)
+unwind: 20
+backend: sat
+native: self
 flags: --max-field-sensitivity-array-size 200
 objbits: 14
 timeout: 600
@@ -132,6 +156,13 @@ static unsigned put_num(char *s, unsigned at, unsigned v)
 {
     if (v >= 10) s[at++] = (char) ('0' + v / 10);
     s[at++] = (char) ('0' + v % 10);
+    return at;
+}
+static unsigned put_big(char *s, unsigned at, unsigned long v)
+{
+    char tmp[12]; unsigned k = 0;
+    do { tmp[k++] = (char) ('0' + (int) (v % 10)); v /= 10; } while (v);
+    while (k) s[at++] = tmp[--k];
     return at;
 }
 /* ncomp components, word index w (0 = none), digit d (10 = none) */
@@ -215,6 +246,19 @@ void harness(void)
                         render(a, n, ca, i, dg[j]); render(b, n, cb, i, dg[k]);
                         check(a, b, j < k ? -1 : (j > k ? 1 : 0));   /* "optional word suffix and number": the number is a numeric component */
                     }
+    }
+#endif
+#ifdef U_NUMBIG
+    {
+        static const unsigned long big[4] = { 9UL, 32768UL, 65537UL, 4294967296UL };
+        for (n = 1; n <= 2; n++)
+            for (i = 0; i < 4; i++)
+                for (j = 0; j < 4; j++) {
+                    unsigned at = 0;
+                    if (n == 2) { a[0] = b[0] = '2'; a[1] = b[1] = '.'; at = 2; }
+                    a[put_big(a, at, big[i])] = 0; b[put_big(b, at, big[j])] = 0;
+                    check(a, b, i < j ? -1 : (i > j ? 1 : 0));
+                }
     }
 #endif
 #ifdef U_LONGER
